@@ -93,7 +93,7 @@ def esCross (cfg : ESCfg) (s : PopSt) (perm : List Nat) (k : Nat) (tape : Tape) 
     let (ok, t3) ← askFeas pos t2
     if ok then emitVia s worst pos t3
     else do
-      let (q, t4) ← moveClimb cfg.member.geo (some pos) (some 1) t3
+      let (q, t4) ← moveClimb cfg.member.geo (some pos) (some 1) s.tape.length t3
       emitVia s worst q t4
 
 def esIterate (cfg : ESCfg) (s : PopSt) : Except Err (Pos × PopSt) :=
@@ -124,7 +124,7 @@ def constraintLoop (g : Geo) (epsMod : Rat) : Nat → Pos → Tape → Except Er
     let (ok, t1) ← askFeas p tape
     if ok then pure (p, t1)
     else do
-      let (q, t2) ← moveClimb g (some p) (some epsMod) t1
+      let (q, t2) ← moveClimb g (some p) (some epsMod) fuel t1
       constraintLoop g epsMod fuel q t2
 
 /-- `np.choose(choice, [target_vector, mutant_vector])` -/
